@@ -135,6 +135,94 @@ def bfs_path(adj, a, b):
     return p
 
 
+# ---- TDVP object histories (kind "tdvp") ------------------------------------------------------
+TDVP_SCHEMES = ["pre", "post", "revpost", "bfs", "attach"]
+TDVP_OPS = [[], ["reset"], ["step", "reset"], ["step", "step", "reset"], ["run", "reset"],
+            ["step", "reset", "step", "step", "reset"], ["run", "reset", "run", "reset"], ["reset", "step", "reset"]]
+
+
+def ordered_children(par, order):
+    ch = collections.defaultdict(list)
+    for i in order:
+        if par[i] is not None:
+            ch[par[i]].append(i)
+    return ch
+
+
+def scheme_positions(par, order, scheme):
+    """position of every node in a canonical traversal of the ORDERED tree (children in attach order): identifiers are
+    handed out along it, so different trees of one history share identifiers and, e.g., their post-order sequence."""
+    ch = ordered_children(par, order)
+    seq = []
+    if scheme in ("pre", "post", "revpost"):
+        def rec(i):
+            if scheme == "pre":
+                seq.append(i)
+            for c in (ch[i] if scheme != "revpost" else reversed(ch[i])):
+                rec(c)
+            if scheme != "pre":
+                seq.append(i)
+        rec(0)
+    elif scheme == "bfs":
+        q = collections.deque([0])
+        while q:
+            u = q.popleft()
+            seq.append(u)
+            q.extend(ch[u])
+    else:   # the order in which the nodes are attached
+        seq = list(order)
+    pos = [0] * len(par)
+    for k, i in enumerate(seq):
+        pos[i] = k
+    return pos
+
+
+def build_labelled_ttns(tree, rng):
+    """TTNS holding the tree of the case: identifiers n<label>, children attached in attach order, legs (parent, children,
+    physical), bond dimensions drawn per edge."""
+    import numpy as np
+    par, lab, order = tree["parents"], tree["labels"], tree["attach"]
+    ch = ordered_children(par, order)
+    bd = {i: rng.choice([1, 2, 2, 2, 3]) for i in range(1, len(par))}
+    nprs = np.random.RandomState(rng.randrange(2 ** 31))
+    ttns = util.TTNS()
+    for i in order:
+        shape = ([] if par[i] is None else [bd[i]]) + [bd[c] for c in ch[i]] + [2]
+        t = nprs.standard_normal(shape) + 1j * nprs.standard_normal(shape)
+        node = util.Node(identifier=sid(lab[i]))
+        if par[i] is None:
+            ttns.add_root(node, t)
+        else:
+            pid = sid(lab[par[i]])
+            ttns.add_child_to_parent(node, t, 0, pid, ttns.nodes[pid].nneighbours())
+    return ttns
+
+
+def reference_block(state, ttno, a, b):
+    """<state|H|state> restricted to the component of `a` after cutting the edge (a, b), by a naive recursive einsum over the
+    tensors of the state and the operator; legs (ket, operator, bra) of the cut edge. Independent of the library's
+    contraction code (it only reads tensors and neighbour orders)."""
+    import numpy as np
+
+    def nb(node):
+        return ([] if node.parent is None else [node.parent]) + list(node.children)
+    ket = state.tensors[a]
+    op = ttno.tensors[a]
+    knb, onb = nb(state.nodes[a]), nb(ttno.nodes[a])
+    lab = {}
+
+    def L(*key):
+        return lab.setdefault(key, len(lab))
+    pin, pout = L("in"), L("out")
+    args = [ket, [L("k", x) for x in knb] + [pin],
+            op, [L("h", x) for x in onb] + [pout, pin],
+            ket.conj(), [L("b", x) for x in knb] + [pout]]
+    for x in knb:
+        if x != b:
+            args += [reference_block(state, ttno, x, a), [L("k", x), L("h", x), L("b", x)]]
+    return np.einsum(*args, [L("k", b), L("h", b), L("b", b)])
+
+
 class C17(Prop):
     id = "C17"
     title = "tree navigation and the TDVP sweep order"
@@ -142,7 +230,15 @@ class C17(Prop):
     rule = ("struct cases: every rooted ordered tree up to the node bound (7 quick / 9 thorough), built "
             "as a bare TreeStructure, all node pairs, all centres; random cases: shaped random trees up to 40 nodes with "
             "random identifiers and random attach order (children order and node-dict order), sampled pairs/centres; "
-            "real cases: TTNS+TTNO with the real SandwichCache.init_cache_but_one contraction; malformed: unknown "
+            "real cases: TTNS+TTNO with the real SandwichCache.init_cache_but_one contraction; tdvp cases (40 quick / 300 thorough): "
+            "HISTORIES of 2-5 real TDVP algorithm objects (first/second order one-site, two-site) created in one process on "
+            "2-4 trees of one size (distinct rooted ordered trees up to 6 nodes, shaped random trees up to 7 / 9 nodes) whose "
+            "identifiers are handed out along one canonical traversal (pre-order, post-order = linearise, reversed post-order, "
+            "breadth-first, attach order; identity or random identifier set), so that different trees share identifiers and "
+            "traversal sequences; some objects reuse a state/operator already passed to an earlier object; every object is "
+            "observed after construction and after every reset_to_initial_state that follows time steps / complete runs / "
+            "nothing (sequential or interleaved round robin with all objects alive): tdvp.update_path, keys and block values of "
+            "tdvp.partial_tree_cache; malformed: unknown "
             "identifiers (both sides must reject). non-trivial = at least 3 nodes; distinct by case content")
     clauses = [
         ("F", "linearise: permutation of the nodes, every child before its parent, root last (C17_linearise_perm, _child_before_parent, _root_last)"),
@@ -166,6 +262,12 @@ class C17(Prop):
         ("V", "exact equality of every modelled query with the implementation on all rooted ordered trees up to the node bound, all node "
               "pairs and centres (lists, dict key orders, update path, caching path, next-id dict, cache key order), plus random trees up "
               "to 40 nodes; independent BFS oracle on the undirected graph; real SandwichCache contraction on TTNS+TTNO"),
+        ("V", "the sweep order and the initial environment cache HELD BY TDVP algorithm objects (tdvp.update_path, tdvp.partial_tree_cache), "
+              "for every object of a history of several objects in one process and at every start of a sweep (after construction, after "
+              "each reset following time steps or runs): update path and cache key order equal the model's update_path / tdvp_cache_keys of "
+              "the object's own tree (exact), BFS oracle (permutation, deepest leaf, end degree, crossings <= 2, exactly one block per edge "
+              "toward path[0], no other keys) and every cached block equals a naive einsum contraction of the object's current state and "
+              "operator over the subtree behind its edge (relative 1e-8)"),
     ]
     trusted_base = ["node identifiers are mapped to natural numbers by the harness (the library uses strings); the key order of the node "
                     "dictionary is an explicit input of get_leaves/nearest_neighbours",
@@ -183,6 +285,33 @@ class C17(Prop):
             lab = rng.sample(range(0, 3 * n + 5), n)
         order = topo_order(rng, par) if shuffle else list(range(n))
         return {"kind": kind, "parents": par, "labels": lab, "attach": order, "pairs": pairs, "centres": centres}
+
+    def _tdvp_history(self, rng, k, nmax):
+        """several TDVP algorithm objects created (and used: time steps, complete runs, resets) in one process, on trees of
+        one size whose identifiers are handed out along one canonical traversal (so the trees share their identifier set
+        and e.g. the post-order / pre-order / breadth-first sequence although their shapes differ)."""
+        n = rng.choice([2, 3, 3, 4, 4, 4, 5, 5, 6, 7]) if k % 4 else rng.randrange(3, nmax + 1)
+        ntrees = rng.choice([2, 2, 3, 3, 4])
+        shapes = ["uniform", "deep", "bushy", "chainroot", "binary", "ties"]
+        if n <= 6 and k % 3:
+            pool = util.all_parents(n)           # distinct rooted ordered trees of this size
+            pars = rng.sample(pool, min(ntrees, len(pool)))
+        else:
+            pars = [random_parents_shaped(rng, n, rng.choice(shapes)) for _ in range(ntrees)]
+        scheme = TDVP_SCHEMES[k % len(TDVP_SCHEMES)]
+        ids = list(range(n)) if rng.random() < 0.25 else rng.sample(range(0, 3000), n)
+        shuffle = rng.random() < 0.5
+        trees = []
+        for par in pars:
+            order = topo_order(rng, par) if shuffle else list(range(n))
+            pos = scheme_positions(par, order, scheme)
+            trees.append({"parents": par, "labels": [ids[pos[i]] for i in range(n)], "attach": order})
+        which = list(range(len(trees)))
+        if rng.random() < 0.35:                  # a further object on a state / operator that was already passed in
+            which.append(rng.randrange(len(trees)))
+        objs = [{"tree": j, "algo": rng.choice(["tdvp1", "tdvp1", "tdvp2", "tdvp2s"]), "ops": list(rng.choice(TDVP_OPS))} for j in which]
+        return {"kind": "tdvp", "scheme": scheme, "trees": trees, "objects": objs, "interleave": rng.random() < 0.3,
+                "seed": rng.randrange(10 ** 6)}
 
     def generate(self, ctx, stream, budget_scale=1):
         rng = ctx.rng(stream)
@@ -214,6 +343,9 @@ class C17(Prop):
             n = rng.randrange(2, 9)
             par = random_parents_shaped(rng, n, shapes[k % len(shapes)])
             cases.append({"kind": "real", "parents": par, "seed": rng.randrange(10 ** 6)})
+        # histories of TDVP objects (several objects in one process, run / reset on a reused object)
+        for k in range(ctx.scale(40, 300) * budget_scale):
+            cases.append(self._tdvp_history(rng, k, ctx.scale(7, 9)))
         # malformed: unknown identifiers
         for k in range(ctx.scale(6, 20)):
             n = rng.randrange(1, 8)
@@ -225,15 +357,34 @@ class C17(Prop):
             cases.append(c)
         return cases
 
+    @staticmethod
+    def _parents(case):
+        return case["trees"][0]["parents"] if case["kind"] == "tdvp" else case["parents"]
+
     def nontrivial(self, case):
-        return len(case["parents"]) >= 3
+        return len(self._parents(case)) >= 3
 
     def distribution(self, cases):
         c = collections.Counter()
         for x in cases:
             c["kind:" + x["kind"]] += 1
-            n = len(x["parents"])
+            n = len(self._parents(x))
             c["n:" + (str(n) if n <= 9 else "10-19" if n < 20 else "20-40")] += 1
+            if x["kind"] == "tdvp":
+                c["tdvp:objects"] += len(x["objects"])
+                c["tdvp:scheme-" + x["scheme"]] += 1
+                c["tdvp:interleaved"] += bool(x["interleave"])
+                for o in x["objects"]:
+                    c["tdvp:algo-" + o["algo"]] += 1
+                    c["tdvp:cache-observations-after-reset"] += o["ops"].count("reset")
+                    c["tdvp:resets-after-evolution"] += sum(1 for a, b in zip(o["ops"], o["ops"][1:]) if b == "reset" and a != "reset")
+                tr = x["trees"]
+                lins = [tuple(l for l, _ in sorted(zip(t["labels"], scheme_positions(t["parents"], t["attach"], "post")), key=lambda z: z[1])) for t in tr]
+                shp = [repr(case_rtree(t)) for t in tr]
+                c["tdvp:pairs-of-different-trees-with-equal-linearisation"] += sum(
+                    1 for i in range(len(tr)) for j in range(i) if lins[i] == lins[j] and shp[i] != shp[j])
+                c["tdvp:objects-sharing-a-state-object"] += len(x["objects"]) - len({o["tree"] for o in x["objects"]})
+                continue
             par = x["parents"]
             if sum(1 for p in par if p == 0) == 1:
                 c["root-with-one-child"] += 1
@@ -242,6 +393,8 @@ class C17(Prop):
         return dict(c)
 
     def sample_repr(self, case):
+        if case["kind"] == "tdvp":
+            return case
         return {k: v for k, v in case.items() if k not in ("pairs", "centres")} | {"npairs": case.get("pairs") if isinstance(case.get("pairs"), str) else len(case.get("pairs", []))}
 
     # ---------------------------------------------------------------------------------------
@@ -366,11 +519,113 @@ class C17(Prop):
             ob["keys"] = {"err": type(e).__name__ + ": " + str(e)[:200]}
         return ob
 
+    @staticmethod
+    def _observe_tdvp(tdvp, after):
+        """the sweep order and the environment cache of a TDVP object that is at the start of a sweep (freshly constructed
+        or just reset): identifiers -> ints; every cached block is compared with the naive reference contraction of the
+        object's CURRENT state."""
+        import numpy as np
+        rec = {"after": list(after)}
+        try:
+            rec["path"] = [nid(x) for x in tdvp.update_path]
+            cache = tdvp.partial_tree_cache
+            keys = list(cache.keys())
+            rec["keys"] = [[nid(a), nid(b)] for a, b in keys]
+            c = tdvp.state.orthogonality_center_id
+            rec["centre"] = None if c is None else nid(c)
+            bad = []
+            for a, b in keys:
+                node = tdvp.state.nodes.get(a)
+                if node is None or b not in ([node.parent] + list(node.children)):
+                    continue          # not an edge: the key check reports it
+                got = np.asarray(cache.get_entry(a, b))
+                ref = reference_block(tdvp.state, tdvp.hamiltonian, a, b)
+                if got.shape != ref.shape:
+                    bad.append([nid(a), nid(b), "shape %s instead of %s" % (list(got.shape), list(ref.shape))])
+                else:
+                    dev = float(np.max(np.abs(got - ref))) if got.size else 0.0
+                    if not dev <= 1e-8 * (1.0 + float(np.max(np.abs(ref))) if ref.size else 1.0):
+                        bad.append([nid(a), nid(b), "max abs deviation %.3e" % dev])
+            rec["bad_blocks"] = bad
+        except Exception as e:  # noqa
+            import traceback
+            rec["err"] = f"{type(e).__name__}: {e}"[:300] + " | " + traceback.format_exc()[-600:]
+        return rec
+
+    def _impl_tdvp(self, case):
+        import random
+        import numpy as np
+        rng = random.Random(case["seed"])
+        ob = {"trees": [], "objects": []}
+        built = []
+        for tree in case["trees"]:
+            ttns = build_labelled_ttns(tree, rng)
+            idsl = sorted(ttns.nodes)
+            ham = util.rand_ham(rng, idsl, util.phys_dims(ttns), len(idsl) + 1, hermitian=True, max_support=2)
+            ttno = util.TTNO.from_hamiltonian(copy.deepcopy(ham), ttns)
+            built.append((ttns, ham, ttno))
+            ob["trees"].append({"structure": {str(nid(k)): [None if v.parent is None else nid(v.parent), [nid(c) for c in v.children]]
+                                              for k, v in ttns.nodes.items()},
+                                "linearise": [nid(x) for x in ttns.linearise()]})
+        live = []
+        todo = []
+
+        def construct(o):
+            ttns, ham, ttno = built[o["tree"]]
+            obs_op = util.TensorProduct({ttns.root_id: np.array([[1.0, 0.0], [0.0, -1.0]])})
+            rec = {"phases": []}
+            ob["objects"].append(rec)
+            try:
+                tdvp = util.make_evolution(o["algo"], ttns, ham, ttno, 0.05, 0.1, [obs_op])
+            except Exception as e:  # noqa
+                rec["err"] = f"construction raised {type(e).__name__}: {e}"[:300]
+                return None
+            rec["phases"].append(self._observe_tdvp(tdvp, []))
+            return tdvp
+
+        def apply(tdvp, rec, done, op):
+            done.append(op)
+            try:
+                if op == "step":
+                    tdvp.run_one_time_step()
+                elif op == "run":
+                    tdvp.run(pgbar=False)
+                else:
+                    tdvp.reset_to_initial_state()
+            except Exception as e:  # noqa
+                rec["err"] = f"{op} (after {done[:-1]}) raised {type(e).__name__}: {e}"[:300]
+                return False
+            if op == "reset":
+                rec["phases"].append(self._observe_tdvp(tdvp, done))
+            return True
+        if case["interleave"]:
+            # all objects are constructed first and stay alive; their operations are then interleaved round robin
+            for o in case["objects"]:
+                live.append(construct(o))
+            queues = [(t, ob["objects"][j], [], list(o["ops"])) for j, (t, o) in enumerate(zip(live, case["objects"])) if t is not None]
+            while any(q[3] for q in queues):
+                for t, rec, done, ops in queues:
+                    if ops and "err" not in rec:
+                        apply(t, rec, done, ops.pop(0))
+                    elif ops:
+                        ops.clear()
+        else:
+            for j, o in enumerate(case["objects"]):
+                t = construct(o)
+                live.append(t)
+                if t is None:
+                    continue
+                done = []
+                for op in o["ops"]:
+                    if not apply(t, ob["objects"][j], done, op):
+                        break
+        return ob
+
     def impl(self, ctx, cases):
         out = []
         for c in cases:
             try:
-                out.append(self._impl_real(c) if c["kind"] == "real" else self._impl_struct(c))
+                out.append(self._impl_real(c) if c["kind"] == "real" else self._impl_tdvp(c) if c["kind"] == "tdvp" else self._impl_struct(c))
             except Exception as e:  # noqa
                 import traceback
                 out.append({"exception": f"{type(e).__name__}: {e}", "tb": traceback.format_exc()[-1500:]})
@@ -384,6 +639,8 @@ class C17(Prop):
         return copt(r["ok"], f) if "ok" in r else "None"
 
     def _model_expr(self, case, ob):
+        if case["kind"] == "tdvp":
+            return coq_list(case["trees"], lambda tr: f"(let t := {util.coq_rtree(case_rtree(tr))} in (update_path t, tdvp_cache_keys t))")
         if case["kind"] == "real":
             tl = util.coq_rtree(tuple_tree(ob["rtree"]))
             return f"(let t := {tl} in (update_path t, tdvp_cache_keys t))"
@@ -425,22 +682,57 @@ class C17(Prop):
         return f"(let t := {tl} in (" + ", ".join(parts) + "))"
 
     def model(self, ctx, cases, obs):
-        exprs, idx = [], []
+        exprs, idx, small = [], [], []
         for i, (c, ob) in enumerate(zip(cases, obs)):
             if "exception" in ob:
                 continue
+            if c["kind"] == "tdvp":      # tiny expressions: ten histories per evaluated expression (fewer coqc start-ups)
+                small.append(i)
+                continue
             exprs.append(self._model_expr(c, ob))
             idx.append(i)
+        groups = [small[k:k + 10] for k in range(0, len(small), 10)]
+        for g in groups:
+            exprs.append("[" + "; ".join(self._model_expr(cases[i], obs[i]) for i in g) + "]")
         vals = coq_eval(ctx, IMPORTS, exprs, prelude=PRELUDE, shard=12, scope="nat_scope")
         out = [None] * len(cases)
         for i, v in zip(idx, vals):
             out[i] = v
+        for g, v in zip(groups, vals[len(idx):]):
+            for k, i in enumerate(g):
+                out[i] = v if isinstance(v, BaseException) else v[k]
         return out
 
     # ---------------------------------------------------------------------------------------
     def compare(self, case, ob, mo):
         if "exception" in ob:
             return f"implementation raised {ob['exception']} where the model runs"
+        if case["kind"] == "tdvp":
+            for j, (tr, tob) in enumerate(zip(case["trees"], ob["trees"])):
+                want = {}
+
+                def walk(t, p):
+                    want[str(t[0])] = [p, [c[0] for c in t[1]]]
+                    for c in t[1]:
+                        walk(c, t[0])
+                walk(case_rtree(tr), None)
+                if tob["structure"] != want:
+                    return f"the state of tree {j} does not hold the tree that was built"
+            for j, (o, rec) in enumerate(zip(case["objects"], ob["objects"])):
+                up_m, keys_m = mo[o["tree"]]
+                pm = None if up_m is None else list(up_m[1])
+                km = None if keys_m is None else [list(p) for p in keys_m[1]]
+                for ph in rec["phases"]:
+                    where = f"TDVP object {j} ({o['algo']} on tree {o['tree']}) after {ph['after'] or 'construction'}"
+                    if "err" in ph:
+                        return f"{where}: observation raised {ph['err']}"
+                    if ph["path"] != pm:
+                        return f"{where}: update_path {ph['path']}, model {pm}"
+                    if ph["keys"] != km:
+                        return f"{where}: cache keys {ph['keys']}, model {km}"
+                if "err" in rec:
+                    return f"TDVP object {j} ({o['algo']} on tree {o['tree']}): {rec['err']}; the model gives the path {pm}"
+            return None
         if case["kind"] == "real":
             up_m, keys_m = mo
             if up_m is None or list(up_m[1]) != ob["update"]["ok"]["path"]:
@@ -543,6 +835,32 @@ class C17(Prop):
     def oracle(self, case, ob):
         if "exception" in ob:
             return f"raised {ob['exception']}"
+        if case["kind"] == "tdvp":
+            for j, (o, rec) in enumerate(zip(case["objects"], ob["objects"])):
+                tr = case["trees"][o["tree"]]
+                adj, root, parent = graph_of(tr)
+                who = (f"TDVP object {j} of {len(case['objects'])} created in this process ({o['algo']}, tree {case_rtree(tr)}, "
+                       f"identifiers along the {case['scheme']} traversal)")
+                for ph in rec["phases"]:
+                    where = who + (f" after {ph['after']}" if ph["after"] else " after construction")
+                    if "err" in ph:
+                        return f"{where}: {ph['err']}"
+                    up = ph["path"]
+                    if not set(up) <= set(adj):
+                        return f"{where}: update path {up} contains identifiers that are not nodes"
+                    keys = [tuple(k) for k in ph["keys"]]
+                    if any(a not in adj or b not in adj[a] for a, b in keys):
+                        return f"{where}: the environment cache holds blocks that belong to no edge: {keys}"
+                    w = self._oracle_update_and_cache(adj, root, parent, up, [(up[0], keys)] if up else [])
+                    if w:
+                        return f"{where}: {w}"
+                    if ph["bad_blocks"]:
+                        a, b, how = ph["bad_blocks"][0]
+                        return (f"{where}: the block ({a},{b}) of the initial environment cache is not the contraction of the current "
+                                f"state and operator over the subtree behind the edge ({how})")
+                if "err" in rec:
+                    return f"{who}: {rec['err']}"
+            return None
         if case["kind"] == "real":
             par = case["parents"]
             c2 = {"parents": par, "labels": list(range(len(par)))}
